@@ -186,7 +186,7 @@ def run_case(case, res):
     res.count("constructions_" + case["form"])
     check_state(kind, s, model, desc)
     for step, (op, ki, v, aux) in enumerate(case["ops"]):
-        k = POOL[ki]
+        k = common.fresh(POOL[ki])     # an equal number, not the identical object
         desc = f"{op}({k!r})"
         if op == "add":
             g = _g(desc, lambda: s.add(k))
